@@ -22,7 +22,7 @@ EXPLANATION = (
     'deterministic attributes. The editor generators iterate sets but their output is outside C15. Not decided: nothing '
     'beyond the stability of Python dict order and list.sort.'
 )
-ASSUMPTIONS = ['dict iteration order is insertion order; list.sort is stable', 'set-typedness is derived from annotations, constructors and constant folding']
+ASSUMPTIONS = ['options given through BESPOKEASM_* environment variables (click auto_envvar_prefix) count as options, i.e. inputs', 'dict iteration order is insertion order; list.sort is stable', 'set-typedness is derived from annotations, constructors and constant folding']
 
 _AMBIENT_CALLS = ('os.curdir', 'pathlib.Path.cwd', 'Path.cwd', 'os.path.expanduser', 'os.path.expandvars', 'os.getlogin', 'os.uname', 'os.cpu_count',
                   'os.getuid', 'os.path.getmtime', 'os.path.getctime', 'os.stat', 'sys.getfilesystemencoding', 'sys.platform', 'time.', 'random.', 'datetime.', 'uuid.', 'os.getenv', 'os.environ', 'os.listdir', 'os.scandir', 'os.getcwd', 'os.getpid',
